@@ -305,6 +305,7 @@ MUST_FIRE = [
     ('E multiplies', [(FI, "n_fits = np.sum((self.chi2 / self.source.n_data) <= number)", "n_fits = np.sum((self.chi2 * self.source.n_data) <= number)")]),
 ]
 MUST_SILENT = [
+    ('round 12: the count of kept fits made a python int', [('sedfitter/fit_info.py', 'n_fits = np.sum(self.chi2 <= number)', 'n_fits = int(np.sum(number >= self.chi2))')]),
     ('comparison flipped', [(FI, "n_fits = np.sum(self.chi2 <= number)", "n_fits = np.sum(number >= self.chi2)")]),
     ('temporary for delta', [(FI, "n_fits = np.sum(self.chi2 - self.chi2[0] <= number)", "delta = self.chi2 - self.chi2[0]\n            n_fits = np.sum(delta <= number)")]),
     ('strict comparison', [(FI, "n_fits = np.sum((self.chi2 / self.source.n_data) <= number)", "n_fits = np.sum((self.chi2 / self.source.n_data) < number)")]),
